@@ -174,6 +174,39 @@ def conv_bm():
   return _BM[0]
 
 
+EMPTY = T.EmptyHolder(6)
+_USER_OPTS = None
+
+
+def bound_method_of_falsy_instance(a: int, b: int, k: int) -> bool:
+  """
+  post: _
+  """
+  # the convert() wrapper and the call wrapper bind a bound method's instance first,
+  # whatever its truth value
+  from malt.core import converter
+  from malt.impl import api
+  global _USER_OPTS
+  if _USER_OPTS is None:
+    _USER_OPTS = converter.ConversionOptions(recursive=True, user_requested=True, optional_features=None)
+  w = conv_falsy()
+  direct = rt.obs(lambda: EMPTY.meth(a, b, k=k), ())
+  r1 = rt.same_obs(direct, rt.obs(lambda: w(a, b, k=k), ()))
+  r2 = rt.same_obs(direct, rt.obs(lambda: api.converted_call(EMPTY.meth, (a, b), {'k': k}, options=_USER_OPTS), ()))
+  r3 = rt.same_obs(rt.obs(lambda: EMPTY.make(a, b), ()),
+                   rt.obs(lambda: api.converted_call(EMPTY.make, (a,), {'b': b}, options=_USER_OPTS), ()))
+  return r1 and r2 and r3
+
+
+_FW = []
+
+
+def conv_falsy():
+  if not _FW:
+    _FW.append(malt.convert(recursive=True)(EMPTY.meth))
+  return _FW[0]
+
+
 def shared_global_foreign_module(v: int, a: int, b: int) -> bool:
   """
   post: _
@@ -190,7 +223,7 @@ def shared_global_foreign_module(v: int, a: int, b: int) -> bool:
 
 
 SEMANTIC = ['shared_cell', 'shared_global', 'shared_mutable_default', 'bound_method',
-            'shared_global_foreign_module']
+            'shared_global_foreign_module', 'bound_method_of_falsy_instance']
 
 
 def static_conditions():
